@@ -14,7 +14,8 @@ RULE = ("Parameter.parse on a packet whose cursor is preset. Exhaustive parts: e
         "Generated part (Hypothesis): integer widths 1..80 (and up to 256), IEEE 32/64 and MIL-STD-1750A with boundary "
         "classes (+-0, min/max subnormal, min/max normal, +-inf, quiet/signalling NaN with payloads, mantissa -2^23 and "
         "2^23-1, exponent -128 and 127) and random patterns, offsets 0..7 plus large offsets, both byte orders (little-"
-        "endian only for whole-byte widths). Oracle: bit-string/Fraction reference (vf/refbits.py): value equal (floats "
+        "endian only for whole-byte widths); a quarter of the generated fields are obtained through from_xml of an own "
+        "rendering (defaults written or omitted, optional `signed` attribute on the parameter type). Oracle: bit-string/Fraction reference (vf/refbits.py): value equal (floats "
         "bit-for-bit incl. sign of zero, NaN==NaN), int-based value for integer encodings and float-based for float "
         "encodings, raw_value == value, cursor advanced by the width. Non-trivial: offset != 0, or little-endian, or "
         "signed with sign bit set, or a float from a boundary class; distinct by (encoding, width, order, offset, pattern).")
@@ -27,7 +28,37 @@ BE, LE = "mostSignificantByteFirst", "leastSignificantByteFirst"
 _cache = {}
 
 
+def _param_xml(enc):
+    """the same parameter obtained through from_xml of an own rendering: defaults omitted where possible, and the
+    optional `signed` attribute of the parameter type present (the data encoding decides how the bits are read)"""
+    from lxml import etree
+    from space_packet_parser.xtce import parameter_types, parameters
+    x = enc["xml"]
+    attrib = {"sizeInBits": str(enc["bits"])}
+    if enc["k"] == "int":
+        if not (x.get("omit") and enc["sign"] == "unsigned"):
+            attrib["encoding"] = enc["sign"]
+        tag, ttag = "IntegerDataEncoding", "IntegerParameterType"
+    else:
+        if not (x.get("omit") and enc["fmt"] == "IEEE754"):
+            attrib["encoding"] = enc["fmt"]
+        tag, ttag = "FloatDataEncoding", "FloatParameterType"
+    if not (x.get("omit") and enc["order"] == BE):
+        attrib["byteOrder"] = enc["order"]
+    tattrib = {"name": "T"}
+    if x.get("signed") is not None and enc["k"] == "int":
+        tattrib["signed"] = x["signed"]
+    t = etree.Element(ttag, tattrib)
+    t.append(etree.Element("UnitSet"))
+    t.append(etree.Element(tag, attrib))
+    t = etree.fromstring(etree.tostring(t))
+    cls = parameter_types.IntegerParameterType if enc["k"] == "int" else parameter_types.FloatParameterType
+    return parameters.Parameter("P", cls.from_xml(t))
+
+
 def _param(enc):
+    if enc.get("xml"):
+        return _param_xml(enc)
     key = (enc["k"], enc["bits"], enc.get("sign"), enc.get("fmt"), enc["order"])
     p = _cache.get(key)
     if p is None:
@@ -219,6 +250,8 @@ def gen_case(draw):
         if order == LE:
             # the special value is meant in value order; store it byte-reversed for little-endian
             pat = int(refbits.reverse_bytes(format(pat, f"0{w}b")), 2)
+    if draw(st.integers(0, 3)) == 0:
+        enc["xml"] = {"omit": draw(st.booleans()), "signed": draw(st.sampled_from([None, "true", "false"]))}
     offset = draw(st.one_of(st.integers(0, 7), st.integers(0, 7), st.integers(8, 4000)))
     fbits = format(pat, f"0{w}b")
     pre = draw(st.integers(0, 2 ** min(offset, 16) - 1)) if offset else 0
